@@ -51,4 +51,5 @@ registry! {
     c25::C25,
     c26::C26,
     c28::C28,
+    c29::C29,
 }
